@@ -166,6 +166,39 @@ fn scenario(cfg: NetCfg, rng: &mut Rng, rounds: u64, fails: &mut Vec<Value>, all
         }
         let _ = d.finalise(ts, &h3);
 
+        // --- a re-parking discarded by clearCaches: the surviving (committed) parking's txid counts ---
+        {
+            let si2 = ((round + 1) % sim::SIGNERS as u64) as usize;
+            let sa2 = sim::signer_address(si2);
+            let m0 = d.nonce(sa2);
+            let (ta, tb, tnow2) = (rnd_hash(rng), rnd_hash(rng), rnd_hash(rng));
+            ts += 600;
+            let hp = maybe_zero_hash(rng);
+            let (r, ss) = d.transact(si2, m0 + 1, Some(probes[1]), &cd::context(), big, &ta, ts, &hp);
+            if r.is_err() || !ss.is_empty() { fails.push(json!({"what": "C19: parking a future-nonce transaction failed or executed", "case": {"answer": format!("{:?}", r), "history": d.log.clone()}})); }
+            let _ = d.finalise(ts, &hp);
+            if d.commit().is_ok() {
+                ts += 600;
+                let hq = maybe_zero_hash(rng);
+                // the byte-identical signed transaction, inscribed again with another Bitcoin txid, in a block
+                // that is then discarded
+                let _ = d.transact(si2, m0 + 1, Some(probes[1]), &cd::context(), big, &tb, ts, &hq);
+                let _ = d.clear();
+                ts += 600;
+                let hr = maybe_zero_hash(rng);
+                let number = d.next;
+                let (r, ss) = d.transact(si2, m0, Some(probes[0]), &cd::context(), big, &tnow2, ts, &hr);
+                checked += 1;
+                if r.is_err() || ss.len() != 2 || ss.iter().any(|s| !s.ok()) {
+                    fails.push(json!({"what": "C19: after clearCaches a signed transaction with one committed parked successor did not execute both", "case": {"network": cfg.network, "answer": format!("{:?}", r), "executions": ss.len(), "history": d.log.clone()}}));
+                } else {
+                    check_probe(&mut d, probes[0], &Expect { number, ts, hash: hr.clone(), caller: sa2, origin: sa2, txid: tnow2.clone() }, "signed transaction after clearCaches", fails, &mut checked);
+                    check_probe(&mut d, probes[1], &Expect { number, ts, hash: hr.clone(), caller: sa2, origin: sa2, txid: ta.clone() }, "parked transaction whose re-parking was discarded by clearCaches", fails, &mut checked);
+                }
+                let _ = d.finalise(ts, &hr);
+            }
+        }
+
         // --- reads at the block boundary -------------------------------------------------
         // eth_call of the probe action (environment sample only: a simulation leaves no storage)
         let _ = d.eth_call(Some(addr_of(1)), Some(probes[0]), &cd::context(), None);
